@@ -341,4 +341,96 @@ theorem processBlock_step (cfg : Config) (hnew : cfg.matches .new = true) (hundo
           · exact Or.inl hsame'
           · exact Or.inr ⟨R, er, hdb', hfer, hnumR, hup⟩
 
+/-- the facts `processBlock_step` establishes about the state right after the deliveries of a chain switch, before
+    the LIB advance (exported for the retention-independence proof, which runs two forkables side by side) -/
+theorem switch_emit_facts (cfg : Config) (hnew : cfg.matches .new = true) (hundo : cfg.matches .undo = true)
+    (s : FState) (P : List Id) (b : Blk) (hI : Inv s P) (hcl : SentClosed s.db) (hb : WFin b) (hB : HB s.db b)
+    (hL : LibDeclOK s.db b) (hf : s.db.find b.id = none) (c0 : Entry) (cs0 : List Entry)
+    (hc : computeLongestChain cfg { s with db := appendBlk s.db b } b = some (c0 :: cs0))
+    (u rd : List Entry) (j : Option Ref) (hsw : switchSegments cfg s b true = some (u, rd, j)) :
+    Inv (emitSwitch cfg { s with db := appendBlk s.db b, cache := some (c0 :: cs0) } b (c0 :: cs0) u rd j none).st
+        ((c0 :: cs0).map (·.blk.id)) ∧
+    (∃ eb : Entry, (emitSwitch cfg { s with db := appendBlk s.db b, cache := some (c0 :: cs0) } b (c0 :: cs0) u rd j none).st.lastSent
+        = some eb.blk ∧ eb.blk.ref = b.ref ∧ eb.blk.lib = b.lib) ∧
+    SameBlks (appendBlk s.db b)
+      (emitSwitch cfg { s with db := appendBlk s.db b, cache := some (c0 :: cs0) } b (c0 :: cs0) u rd j none).st.db ∧
+    (∀ e, (emitSwitch cfg { s with db := appendBlk s.db b, cache := some (c0 :: cs0) } b (c0 :: cs0) u rd j none).st.db.find
+        ((emitSwitch cfg { s with db := appendBlk s.db b, cache := some (c0 :: cs0) } b (c0 :: cs0) u rd j none).st.db.blockInChain b.ref b.lib).id = some e →
+      e.blk.num = ((emitSwitch cfg { s with db := appendBlk s.db b, cache := some (c0 :: cs0) } b (c0 :: cs0) u rd j none).st.db.blockInChain b.ref b.lib).num) ∧
+    IsPath (appendBlk s.db b) s.db.libRef.id ((c0 :: cs0).map (·.blk.id)) ∧
+    s.db.libRef.id ∉ (c0 :: cs0).map (·.blk.id) ∧ topOf s.db.libRef.id ((c0 :: cs0).map (·.blk.id)) = b.id := by
+  obtain ⟨hp, hn, hfa, htop, hlast⟩ := compute_chain_path cfg s P b hI hb hB hf (c0 :: cs0) hc
+  have hcok : CacheOK { s with db := appendBlk s.db b, cache := some (c0 :: cs0) } := by
+    intro c cs h _
+    simp only [Option.some.injEq] at h
+    rw [← h]
+    exact ⟨hp, hn, hfa⟩
+  have hI1 := inv_afterLink s P b (some (c0 :: cs0)) hI hb hB hf hcok
+  generalize hs3 : ({ s with db := appendBlk s.db b, cache := some (c0 :: cs0) } : FState) = s3 at hI1 hcok ⊢
+  have hs3db : s3.db = appendBlk s.db b := by rw [← hs3]
+  have hs3lib : s3.db.libRef = s.db.libRef := by rw [hs3db]; rfl
+  obtain ⟨lcA, lcB, Pj, hlc, hPj, hredo, hA, hAs, hBs⟩ :=
+    switch_decomp cfg hundo s P b hI hcl hf (c0 :: cs0) (by simp) hp hn htop u rd j hsw
+  have hnd : ((lcA ++ lcB).map (·.blk.id)).Nodup := by rw [← hlc]; exact isPath_nodup _ _ _ hp hn
+  have hpres : ∀ e ∈ lcA ++ lcB, (s3.db.find e.blk.id).isSome := by
+    intro e he
+    rw [hs3db]
+    exact isPath_present _ _ _ hp e.blk.id (List.mem_map.mpr ⟨e, by rw [hlc]; exact he, rfl⟩)
+  have hlinked : linkedBlks s3.db.libRef.id ((lcA ++ lcB).map (·.blk)) := by
+    rw [← hlc, hs3lib]
+    exact linked_of_path (appendBlk s.db b) _ _ hp hfa
+  have hem := emit_run cfg hnew hundo s3 b lcA lcB u rd j P Pj hPj (by rw [hs3lib]; exact hredo) hA
+    (by rw [hs3db]; exact hAs) (by rw [hs3db]; exact hBs) hlinked hnd hpres
+  rw [hlc]
+  rw [hlc] at hp hn htop hlast hfa
+  obtain ⟨hef, hen, herun, hout⟩ := hem
+  generalize hea : emitSwitch cfg s3 b (lcA ++ lcB) u rd j none = a at hef hen herun hout
+  rcases List.eq_nil_or_concat (lcA ++ lcB) with hnil | ⟨lc0, eb, hlceb⟩
+  · rw [← hlc] at hnil; cases hnil
+  rw [List.concat_eq_append] at hlceb
+  have hebid : eb.blk.id = b.id := by
+    rw [hlceb] at htop; simpa using htop
+  have heblast := hlast eb (by rw [hlceb]; simp)
+  have hebunsent : (fun (e : Entry) => !isSent s3.db e.blk.id) eb = true := by
+    simp only [hs3db, hebid, isSent_append_self s.db b hf, Bool.not_false]
+  have hlastSent : a.st.lastSent = some eb.blk := by
+    rw [hout.last, hlceb, getLast_filter_of_last _ lc0 eb hebunsent]; rfl
+  have hsame : SameBlks s3.db a.st.db := hout.same
+  have hI2 : Inv a.st ((lcA ++ lcB).map (·.blk.id)) := by
+    refine ⟨by rw [hsame.1]; exact hI1.libNe, Forkable.SameBlks.wf hsame hI1.wf, Forkable.SameBlks.heights hsame hI1.heights,
+      ?_, ?_, ?_, ?_, ?_, ?_, ?_, by rw [hout.seen, hsame.1]; exact hI1.seen⟩
+    · rw [hsame.1, hsame.isPath, hs3lib, hs3db]; exact hp
+    · rw [hsame.1, hs3lib]; exact hn
+    · intro x hx
+      obtain ⟨e, he, rfl⟩ := List.mem_map.mp hx
+      exact hout.sentIn e he
+    · intro l hl
+      rw [hlastSent] at hl
+      injection hl with hl
+      rw [hsame.1, hs3lib, htop, ← hl, hebid]
+    · intro hnone; rw [hlastSent] at hnone; cases hnone
+    · intro c cs hcache _
+      rw [hout.cache, ← hs3] at hcache
+      simp only [Option.some.injEq] at hcache
+      rw [← hcache, hlc, hsame.1, hs3lib]
+      refine ⟨?_, hn, ?_⟩
+      · rw [hsame.isPath, hs3db]; exact hp
+      · exact faithful_same hsame _ (by rw [hs3db]; exact hfa)
+    · intro i n hin
+      rw [hsame.2.2, hs3db] at hin
+      exact hI.initOk i n hin
+  have hlibok : ∀ e, a.st.db.find (a.st.db.blockInChain b.ref b.lib).id = some e →
+      e.blk.num = (a.st.db.blockInChain b.ref b.lib).num := by
+    intro e he
+    rw [hsame.blockInChain, hs3db] at he ⊢
+    have hfb := hsame.find_blk ((appendBlk s.db b).blockInChain b.ref b.lib).id
+    rw [he, hs3db] at hfb
+    cases hfe : (appendBlk s.db b).find ((appendBlk s.db b).blockInChain b.ref b.lib).id with
+    | none => rw [hfe] at hfb; simp at hfb
+    | some e1 =>
+      rw [hfe] at hfb
+      simp only [Option.map_some, Option.some.injEq] at hfb
+      rw [hfb]; exact hL e1 hfe
+  exact ⟨hI2, ⟨eb, hlastSent, heblast.1, heblast.2⟩, by rw [← hs3db]; exact hsame, hlibok, hp, hn, htop⟩
+
 end BstreamVerif.Forkable
